@@ -1,5 +1,6 @@
 import datetime
 import dateutil
+import math
 import numpy
 import pandas
 from typing import Optional, Union, NewType
@@ -233,7 +234,10 @@ class Text(ExcelType):
         except ValueError:
             pass
         try:
-            return float(self.value)
+            value = float(self.value)
+            # 'inf', 'nan' and numerals beyond the float range are text.
+            if math.isfinite(value):
+                return value
         except ValueError:
             pass
         # For arithmetic, boolean text is actually interpreted.
